@@ -146,7 +146,59 @@ pub fn restore_family() -> Vec<String> {
     }
     let mut out = vec![];
     for chunk in rules.chunks(20) { let mut g = chunk.to_vec(); g.extend(stack_helpers(Ty::Normal, Ty::Silent)); out.push(pest_grammar(&g)); }
+    // the repetitions that must match at least once / a counted number of times: every operand as the whole body of `+`, `{1,}`, `{1,3}`,
+    // `{2}`, in normal, atomic and compound-atomic rules (one emitter each, and another one with grammar-extras), below two or three
+    // unequal entries, followed by readers of the WHOLE stack (an element lost by the failing last repetition changes what they match)
+    let mut more: Vec<GRule> = vec![];
+    let mut j = 0usize;
+    for o in stack_operands() {
+        for k in 0..4 {
+            if may_spin(&o) && k < 2 { continue; }
+            let w = match k { 0 => GE::Rep1(bx(o.clone())), 1 => GE::RepMin(bx(o.clone()), 1), 2 => GE::RepMM(bx(o.clone()), 1, 3), _ => GE::RepX(bx(o.clone()), 2) };
+            for ty in [Ty::Atomic, Ty::Compound, Ty::Normal] {
+                let mut v = vec![GE::Push(bx(lit1("x"))), GE::Push(bx(lit1("y")))];
+                if j % 3 == 2 { v.push(GE::Push(bx(lit1("5")))); }
+                v.push(w.clone());
+                v.extend(match j % 4 { 0 => vec![idn("PEEK_ALL")], 1 => vec![GE::Slice(0, None), idn("EOI")], 2 => vec![idn("POP_ALL"), idn("EOI")], _ => vec![opt(lit1(" ")), idn("PEEK_ALL"), idn("DROP")] });
+                more.push(GRule { name: format!("m{}", j), ty, e: seq_of(v) });
+                j += 1;
+            }
+        }
+    }
+    for chunk in more.chunks(24) { out.push(pest_grammar(&keep_valid(stack_helpers(Ty::Normal, Ty::Silent), chunk.to_vec()))); }
     out
+}
+
+/// the Unicode-property differential: one rule per property name of pest::unicode (binary properties, general categories, scripts),
+/// bare; the batch runs each on the code points around every boundary of the property's table and on a spread over all planes
+pub fn unicode_family() -> Vec<String> {
+    let names: Vec<&'static str> = pest::unicode::unicode_property_names().collect();
+    let mut out = vec![];
+    for chunk in names.chunks(44) {
+        let cands: Vec<GRule> = chunk.iter().map(|n| rule(&format!("u_{}", n.to_lowercase()), Ty::Normal, idn(n))).collect();
+        let g = keep_valid(vec![], cands);
+        if !g.is_empty() { out.push(pest_grammar(&g)); }
+    }
+    out
+}
+
+/// case-insensitive literals with cased letters outside ASCII (`^".."` folds ASCII letters only: every other byte must be in the input
+/// as it is in the grammar), in rules of every kind of emitter, bare / repeated / under predicates / after a push
+pub fn insens_family() -> Vec<String> {
+    let lits = ["\u{c9}cole", "\u{41f}\u{420}\u{418}\u{412}\u{415}\u{422}", "\u{130}stanbul", "Stra\u{df}e", "\u{1c5}x", "y\u{3a3}\u{391}\u{3a3}", "\u{e9}T\u{c9}", "K\u{212a}k"];
+    let mut cands = vec![];
+    for (i, l) in lits.iter().enumerate() {
+        let ins = || GE::Ins(l.to_string());
+        cands.push(rule(&format!("i{}_n", i), Ty::Normal, ins()));
+        cands.push(rule(&format!("i{}_a", i), Ty::Atomic, seq_of(vec![ins(), opt(lit1("x"))])));
+        match i % 4 {
+            0 => cands.push(rule(&format!("i{}_r", i), Ty::Compound, seq_of(vec![rep1(ins()), idn("EOI")]))),
+            1 => cands.push(rule(&format!("i{}_p", i), Ty::Normal, seq_of(vec![GE::Neg(bx(ins())), idn("ANY")]))),
+            2 => cands.push(rule(&format!("i{}_s", i), Ty::Atomic, seq_of(vec![GE::Push(bx(ins())), lit1("x"), idn("POP")]))),
+            _ => cands.push(rule(&format!("i{}_c", i), Ty::Normal, cho(seq_of(vec![ins(), lit1("x")]), seq_of(vec![GE::Pos(bx(ins())), idn("ANY")])))),
+        }
+    }
+    vec![pest_grammar(&keep_valid(vec![], cands))]
 }
 
 /// random members of the same family: 1-3 pushes, the operand alone / in a choice with a literal / pushed twice, any of the wrappers,
@@ -577,6 +629,7 @@ fn main() {
                 for text in PROBES.iter() { tv_line(text, &mut w, &mut stats); }
                 for text in restore_family().iter().chain(shadow_family(true, 0).iter()).chain(trivia_family(true, 0).iter()) { tv_line(text, &mut w, &mut stats); }
                 if extras { for text in tag_family().iter() { tv_line(text, &mut w, &mut stats); } }
+                for text in insens_family().iter() { tv_line(text, &mut w, &mut stats); }
             }
             for _ in 0..count { let g = gen_c02(&mut rng, extras); tv_line(&pest_grammar(&g), &mut w, &mut stats); }
             writeln!(w, "#SUMMARY\tevaluations={}\tdistinct_nontrivial={}\trejected={}", stats.0, stats.2, stats.1).unwrap();
@@ -628,9 +681,14 @@ fn main() {
             texts.extend(restore_texts.iter().cloned());
             let shadow_texts: Vec<String> = if file.is_empty() && !extras { shadow_family(arg(6) == "full", arg_u64(3, 0)) } else { vec![] };
             texts.extend(shadow_texts.iter().cloned());
+            // the Unicode-property differential and the case-insensitive literals outside ASCII
+            let unicode_texts: Vec<String> = if file.is_empty() && !extras { unicode_family() } else { vec![] };
+            texts.extend(unicode_texts.iter().cloned());
+            let insens_texts: Vec<String> = if file.is_empty() { insens_family() } else { vec![] };
+            texts.extend(insens_texts.iter().cloned());
             let lit_mode = arg(5) == "lit";
             let mode_of = |t: &str| -> u8 {
-                if around_mode { 4 } else if lit_mode { 3 } else if builtin_texts.iter().any(|b| b == t) { 1 } else if shadow_texts.iter().any(|b| b == t) { 5 }
+                if around_mode { 4 } else if lit_mode { 3 } else if unicode_texts.iter().any(|b| b == t) { 7 } else if insens_texts.iter().any(|b| b == t) { 8 } else if builtin_texts.iter().any(|b| b == t) { 1 } else if shadow_texts.iter().any(|b| b == t) { 5 }
                 else if trivia_texts.iter().any(|b| b == t) || tag_texts.iter().any(|b| b == t) { 6 }
                 else if ["NEWLINE", "ANY", "ASCII"].iter().any(|k| t.contains(k)) || UNICODE.iter().any(|k| t.contains(k)) { 2 } else { 0 }
             };
@@ -649,9 +707,10 @@ fn main() {
                 texts.push(text);
             }
             writeln!(w, "// GENERATED by `c02 batch` - {} grammars, extras={}", texts.len(), extras).unwrap();
-            writeln!(w, "// FAMILIES restore_on_error={} shadowing={} per_builtin={} explicit_trivia={} node_tags={}", texts.iter().filter(|t| restore_texts.contains(t)).count(),
+            writeln!(w, "// FAMILIES restore_on_error={} shadowing={} per_builtin={} explicit_trivia={} node_tags={} unicode_properties={} insensitive_literals={}", texts.iter().filter(|t| restore_texts.contains(t)).count(),
                 texts.iter().filter(|t| shadow_texts.contains(t)).count(), texts.iter().filter(|t| builtin_texts.contains(t)).count(),
-                texts.iter().filter(|t| trivia_texts.contains(t)).count(), texts.iter().filter(|t| tag_texts.contains(t)).count()).unwrap();
+                texts.iter().filter(|t| trivia_texts.contains(t)).count(), texts.iter().filter(|t| tag_texts.contains(t)).count(),
+                texts.iter().filter(|t| unicode_texts.contains(t)).count(), texts.iter().filter(|t| insens_texts.contains(t)).count()).unwrap();
             writeln!(w, "#![allow(warnings)]\nuse pest::Parser;").unwrap();
             for (i, t) in texts.iter().enumerate() {
                 writeln!(w, "mod g{} {{ #[derive(pest_derive::Parser)] #[grammar_inline = {}] pub struct P; }}", i, rust_str(t)).unwrap();
